@@ -142,9 +142,9 @@ Section WruOk.
   Lemma comp_call_wok n : wru_ok P (comp_call n).
   Proof. unfold comp_call; struct. Qed.
 
-  Lemma init_loop_wok n cfg l : forall k force negotiated, wru_ok P (init_loop k n cfg l force negotiated).
+  Lemma init_loop_wok n cfg l : forall k force negotiated ready, wru_ok P (init_loop k n cfg l force negotiated ready).
   Proof.
-    induction k as [|k IH]; intros force negotiated; cbn [init_loop]; [constructor|].
+    induction k as [|k IH]; intros force negotiated ready; cbn [init_loop]; [constructor|].
     assert (HR : forall f ft pre, wru_ok P (run_feature n false f ft pre))
       by (intros; apply run_feature_wok).
     struct.
@@ -154,9 +154,9 @@ Section WruOk.
   Lemma features_initiator_wok n cfg first : wru_ok P (features_initiator n cfg first).
   Proof. unfold features_initiator; struct. Qed.
 
-  Lemma recv_loop_wok n cfg l : forall negotiated, wru_ok P (recv_loop n cfg l negotiated).
+  Lemma recv_loop_wok n cfg l : forall negotiated ready, wru_ok P (recv_loop n cfg l negotiated ready).
   Proof.
-    induction n as [|n IH]; intro negotiated; cbn [recv_loop]; [constructor|].
+    induction n as [|n IH]; intros negotiated ready; cbn [recv_loop]; [constructor|].
     assert (HR : forall f ft pre, wru_ok P (run_feature n true f ft pre))
       by (intros; apply run_feature_wok).
     struct.
